@@ -278,11 +278,35 @@ where
             _ => return Err(ConnectionInnerError::IllegalState),
         };
 
-        match self.connection.session_tx_by_incoming_channel(channel) {
-            Some(tx) => tx.send(frame).await?,
+        let tx = match self.connection.session_tx_by_incoming_channel(channel) {
+            Some(tx) => tx.clone(),
             None => return Err(ConnectionInnerError::NotFound(None)),
         };
-        Ok(())
+
+        // The session may itself be waiting for room in `outgoing_session_frames` (every
+        // incoming transfer can make it emit a flow). Keep serving that queue while this frame
+        // waits for room in the session's queue; otherwise the two bounded channels wait for
+        // each other forever.
+        let send = tx.send(frame);
+        tokio::pin!(send);
+        let mut outgoing_open = true;
+        loop {
+            tokio::select! {
+                biased;
+                result = &mut send => {
+                    result?;
+                    return Ok(());
+                }
+                outgoing = self.outgoing_session_frames.recv(), if outgoing_open => {
+                    match outgoing {
+                        Some(outgoing) => {
+                            self.on_outgoing_session_frames(outgoing).await?;
+                        }
+                        None => outgoing_open = false,
+                    }
+                }
+            }
+        }
     }
 
     #[cfg_attr(feature = "tracing", tracing::instrument(name = "RECV", skip_all))]
